@@ -24,6 +24,25 @@ Theorem C12_drop_notification_after_close_is_ignored :
 Proof. exact drop_after_close_is_ignored. Qed.
 Print Assumptions C12_drop_notification_after_close_is_ignored.
 
+Theorem C12_drop_notification_for_a_closed_or_destroyed_socket_vanishes :
+  forall v s f p w, d11b_drop_via_fwd v = true -> p_drop p = Some (DTcp s f) ->
+  mget SNone (w_sinks w) f = SFwd None -> run_drop v p w = (w, []).
+Proof. exact drop_of_a_dead_socket_vanishes. Qed.
+Print Assumptions C12_drop_notification_for_a_closed_or_destroyed_socket_vanishes.
+
+Theorem C12_drop_notification_for_a_live_socket_is_delivered :
+  forall v s f p w, d11b_drop_via_fwd v = true -> p_drop p = Some (DTcp s f) ->
+  mget SNone (w_sinks w) f = SFwd (Some (OTcp s)) -> run_drop v p w = tcp_packet_dropped v s p w.
+Proof. exact drop_of_a_live_socket_is_reported. Qed.
+Print Assumptions C12_drop_notification_for_a_live_socket_is_delivered.
+
+(* the pinned tree: the callback went through the destroyed object (marker line 9 6) *)
+Theorem C12_refuted_before_repair_drop_after_destroy :
+  forall v s f p w, d11b_drop_via_fwd v = false -> p_drop p = Some (DTcp s f) -> In f (w_deadfwd w) ->
+  run_drop v p w = (w, [KLog (TAG_FUEL, [6])]).
+Proof. exact drop_of_a_destroyed_socket_dangles. Qed.
+Print Assumptions C12_refuted_before_repair_drop_after_destroy.
+
 Theorem C12_close_leaves_no_handler_and_no_queue_behind :
   forall cx s w, d6_close_clears (cv cx) = true ->
   let t := get_tcp (fst (tcp_close cx s w)) s in
@@ -33,6 +52,7 @@ Proof. exact tcp_close_clears. Qed.
 Print Assumptions C12_close_leaves_no_handler_and_no_queue_behind.
 
 Theorem C12_repairs_in_place :
-  d11a_drop_guard current = true /\ d27_synack_guard current = true /\ d6_close_clears current = true.
+  d11a_drop_guard current = true /\ d27_synack_guard current = true /\ d6_close_clears current = true /\
+  d11b_drop_via_fwd current = true.
 Proof. repeat split; reflexivity. Qed.
 Print Assumptions C12_repairs_in_place.
